@@ -61,6 +61,15 @@ def check_term(acc: Acc, cls: str, p, h: float, xs: list[float]) -> None:
         acc.violate("array-shape", {"term": cls}, case0, [arr.shape], [np.shape(y1), np.shape(y2)],
                     f"{cls}: array evaluation does not preserve the shape")
         return
+    # integer-typed x (Python int, integer array) is the same point as the float
+    for xi in (-1, 0, 1, 2):
+        vi, vf = term.membership(xi), term.membership(float(xi))
+        ai = term.membership(np.array([xi, xi]))
+        acc.case((cls, tuple(p), h, "int", xi), nontrivial=False)
+        if not (same(float(vi), float(vf)) and same(float(ai[0]), float(vf)) and np.shape(ai) == (2,)):
+            acc.violate("int-typed-x", {"term": cls}, {**case0, "x": xi}, float(vf), [float(vi), [float(v) for v in ai]],
+                        f"{cls}{p}: membership({xi}) with an integer-typed x = {float(vi)!r}, with the float {float(vf)!r}")
+            break
     sqrt_shaped = cls in ("Arc", "SemiEllipse")
     prev = None
     for k, x in enumerate(pts):
